@@ -224,6 +224,9 @@ def requests(c, io):
     lines.append(f"rfa {s} {pw} {n} {fmt_list(x)} {fmt_list(y)} {fmt_ints(io['aL'])} {fmt_ints(io['aR'])} "
                  f"{fmt_ints(io['bL'])} {fmt_ints(io['bR'])}")
     kinds.append("values")
+    # the imperative model (the loops in program order) of the same call: covers overlapping windows too
+    lines.append("rfaimp" + lines[-1][3:])
+    kinds.append("values")
     return lines, kinds
 
 
@@ -289,4 +292,11 @@ def compare(c, io, mo, kinds):
 
 
 def unmodelled(mo):
+    """no model answers for the values: the last request is the imperative model (or the only values line);
+    the closed form answers `unmodelled` for overlapping windows, the imperative model answers for every
+    window that fits in its interval"""
+    return bool(mo) and mo[-1] == "unmodelled"
+
+
+def closed_form_unmodelled(mo):
     return any(a == "unmodelled" for a in mo)
